@@ -340,6 +340,24 @@ class _rewrite_captured_vars(ast.NodeTransformer):
         self._ignore_stack.pop()
         return v
 
+    def _visit_comprehension(self, node: ast.AST) -> Any:
+        "The targets of a comprehension are local names - never captured variables"
+        targets = [
+            n.id
+            for g in node.generators  # type: ignore
+            for n in ast.walk(g.target)
+            if isinstance(n, ast.Name)
+        ]
+        self._ignore_stack.append(targets)
+        v = super().generic_visit(node)
+        self._ignore_stack.pop()
+        return v
+
+    visit_ListComp = _visit_comprehension
+    visit_GeneratorExp = _visit_comprehension
+    visit_SetComp = _visit_comprehension
+    visit_DictComp = _visit_comprehension
+
     def visit_Call(self, node: ast.Call) -> Any:
         "If the rewritten call turns into an actual function, then we have to bail,"
         old_func = node.func
